@@ -577,6 +577,35 @@ pub struct SkipWithDefaultExpr {
 }
 proj_struct!(SkipWithDefaultExpr { a, ss, z });
 
+/// `map` on skipped fields: it runs once, on top of the default, like for every other field
+#[derive(Deserr, Debug)]
+pub struct SkipMapped {
+    #[deserr(skip, map = vf::inc_u8)]
+    hidden: u8,
+    a: u8,
+    #[deserr(map = vf::inc_u8, skip, default = 41)]
+    hidden2: u8,
+    #[deserr(map = vf::upper)]
+    b: String,
+}
+proj_struct!(SkipMapped { hidden, a, hidden2, b });
+
+#[derive(Deserr, Debug)]
+#[deserr(tag = "t")]
+pub enum SkipMappedEnum {
+    Brace {
+        #[deserr(skip, default = 6, map = vf::inc_u8)]
+        hidden: u8,
+        n: u8,
+    },
+    OnlySkipped {
+        #[deserr(skip, map = vf::upper)]
+        label: String,
+    },
+    Unit,
+}
+proj_enum!(SkipMappedEnum { Brace { hidden, n }, OnlySkipped { label }, Unit });
+
 // ---------------------------------------------------------------------------------- unknown / missing
 #[derive(Deserr, Debug)]
 #[deserr(deny_unknown_fields)]
@@ -1148,6 +1177,19 @@ pub fn defs() -> Defs {
             f("f", Ty::Bool),
         ],
     )));
+    d.add(st(sdef(
+        "SkipMapped",
+        vec![f("hidden", u(8)).skip(pu(0)).map("inc_u8"), f("a", u(8)), f("hidden2", u(8)).skip(pu(41)).map("inc_u8"), f("b", Ty::Str).map("upper")],
+    )));
+    d.add(Def::Enum(edef(
+        "SkipMappedEnum",
+        "t",
+        vec![
+            vd("Brace", "Brace", Some(vec![f("hidden", u(8)).skip(pu(6)).map("inc_u8"), f("n", u(8))])),
+            vd("OnlySkipped", "OnlySkipped", Some(vec![f("label", Ty::Str).skip(Proj::Str(String::new())).map("upper")])),
+            vd("Unit", "Unit", None),
+        ],
+    )));
     d.add(st(sdef("SkipFirst", vec![f("ss", u(8)).skip(pu(0)), f("a", u(8)), f("b", Ty::Str)])));
     d.add(st(sdef("SkipMiddle", vec![f("a", u(8)), f("ss", Ty::Str).skip(Proj::Str(String::new())), f("b", Ty::Str)])));
     d.add(st(sdef("SkipLast", vec![f("a", u(8)), f("b", opt(Ty::Bool)), f("ss", vec(u(8))).skip(Proj::Seq(vec![]))])));
@@ -1415,6 +1457,8 @@ pub fn registry() -> Registry {
     r.all::<ToolAttrsEnum>("ToolAttrsEnum", named("ToolAttrsEnum"), &["derive", "enum", "rename", "default", "foreign-attrs"]);
     r.all::<VariantRules>("VariantRules", named("VariantRules"), &["derive", "enum", "rename"]);
     r.all::<Defaults>("Defaults", named("Defaults"), &["derive", "default"]);
+    r.all::<SkipMapped>("SkipMapped", named("SkipMapped"), &["derive", "skip", "conv", "default"]);
+    r.all::<SkipMappedEnum>("SkipMappedEnum", named("SkipMappedEnum"), &["derive", "enum", "skip", "conv", "default"]);
     r.all::<SkipFirst>("SkipFirst", named("SkipFirst"), &["derive", "skip"]);
     r.all::<SkipMiddle>("SkipMiddle", named("SkipMiddle"), &["derive", "skip"]);
     r.all::<SkipLast>("SkipLast", named("SkipLast"), &["derive", "skip"]);
